@@ -12,44 +12,88 @@ Definition obs_of (os : list out) : obs :=
 
 Definition Rel (p : phase) (t : track) : Prop :=
   match p with
-  | PInit LoginExpected _ => x t = XLogin /\ open t = true /\ total_joins t = 0
-  | PInit EncRequestSent _ => x t = XEnc /\ open t = true /\ chain_ready t = true /\ total_joins t = 0
-  | PInit _ _ => False
+  | PInit LoginExpected _ _ => x t = XLogin /\ open t = true /\ total_joins t = 0
+  | PInit LoginReceived _ _ => x t = XWait /\ open t = true /\ pending_good t = true /\ total_joins t = 0
+  | PInit EncRequestSent _ _ => x t = XEnc /\ open t = true /\ chain_ready t = true /\ total_joins t = 0
+  | PInit _ _ _ => False
   | PAuthWait => x t = XAck /\ open t = true
   | PClosed => open t = false
   end.
 
-Ltac split_all :=
-  repeat match goal with
-  | |- context [if ?b then _ else _] => is_var b; destruct b
-  | |- context [match ?v with _ => _ end] => is_var v; destruct v
-  end.
+(* observation of a non-empty batch of login plugin messages *)
+Lemma obs_msgs a r :
+  let ob := obs_of (map OPluginMsg (a :: r)) in
+  has OEncRequest (frames ob) = false /\ has OClose (frames ob) = false /\ saw_success ob = false /\
+  admits ob = false /\ existsb is_plugin_msg (frames ob) = true /\ joins ob = 0 /\
+  has (OSuccess USession) (frames ob) = false.
+Proof.
+  assert (F : forall l, filter visible (map OPluginMsg l) = map OPluginMsg l) by (induction l; cbn; congruence).
+  assert (H1 : forall y l, (forall i, out_eqb y (OPluginMsg i) = false) -> existsb (out_eqb y) (map OPluginMsg l) = false)
+    by (intros y l Hy; induction l; cbn; rewrite ?Hy; auto).
+  assert (H2 : forall l, existsb is_success (map OPluginMsg l) = false) by (induction l; cbn; auto).
+  assert (H3 : forall l, length (filter (out_eqb OJoin) (map OPluginMsg l)) = 0) by (induction l; cbn; auto).
+  cbv zeta. unfold obs_of, has, saw_success, admits. cbn [frames joins registered]. rewrite !F.
+  rewrite !H1 by reflexivity. rewrite H2, H3. cbn. rewrite ?H2. cbn. repeat split; reflexivity.
+Qed.
+
+Lemma login_waits c cr pg nv key a r :
+  step_ok c (mkT XLogin true cr 0 pg) (LoginStart nv key) (obs_of (map OPluginMsg (a :: r)))
+  = (true, mkT XWait true false 0 (good_login c (LoginStart nv key))).
+Proof.
+  destruct (obs_msgs a r) as (A1 & A2 & A3 & A4 & A5 & A6 & A7).
+  unfold step_ok. cbn [open x negb total_joins pending_good chain_ready]. cbv zeta.
+  rewrite A1, A2, A3, A4, A5, A6, A7. cbn [negb andb implb Nat.add].
+  destruct (effective_online c && negb (provider c)); reflexivity.
+Qed.
 
 Lemma step_rel c p t o : provider c = false -> Rel p t ->
   fst (step_ok c t o (obs_of (snd (step c p o)))) = true /\
   Rel (fst (step c p o)) (snd (step_ok c t o (obs_of (snd (step c p o))))).
 Proof.
   intros Hpr HR.
-  destruct c as [om pr pv cp hp ha kw fk oc]. cbn [provider] in Hpr. subst pv.
-  destruct t as [x0 op0 cr0 tj0].
-  destruct p as [s k| |].
-  - destruct s; cbn [Rel x open chain_ready total_joins] in HR; try contradiction.
+  destruct c as [om pr pv cp hp ha kw fk oc nm]. cbn [provider] in Hpr. subst pv.
+  destruct t as [x0 op0 cr0 tj0 pg0].
+  destruct p as [s k outst| |].
+  - destruct s; cbn [Rel x open chain_ready total_joins pending_good] in HR; try contradiction.
     + destruct HR as (-> & -> & ->).
-      destruct o as [nv key|tk se kl| | |].
-      * destruct nv, key, kw, fk, pr, om, cp, ha; vm_compute; auto.
+      destruct o as [nv key|tk se kl|id| |].
+      * (* login start *)
+        cbn [step]. unfold handle_login, queued_msgs. cbn [has_plugin pre_msgs key_window force_key pre].
+        destruct nv; [|destruct om, pr; vm_compute; auto].
+        destruct hp, nm as [|n'].
+        1,3,4: destruct key, kw, fk, pr, om, cp, ha; vm_compute; auto.
+        (* messages are queued: the login waits (or the login start is refused) *)
+        cbn [seq negb].
+        destruct key, kw, fk, pr; cbn [fst snd andb];
+          first [ solve [destruct om; vm_compute; auto]
+                | rewrite login_waits; cbn; auto ].
       * vm_compute; auto.
-      * destruct hp; vm_compute; auto.
+      * cbn [step has_plugin]. destruct hp; [|vm_compute; auto].
+        match goal with |- context [handle_plugin ?cc ?ss ?kk ?oo ?ii] =>
+          destruct (handle_plugin_cases cc ss kk oo ii) as [[o2 H]|[Hs H]]; [rewrite H|discriminate Hs] end.
+        destruct om, pr; vm_compute; auto.
       * vm_compute; auto.
       * vm_compute; auto.
+    + (* waiting *)
+      destruct HR as (-> & -> & -> & ->).
+      destruct o as [nv key|tk se kl|id| |]; try (vm_compute; auto; fail).
+      cbn [step has_plugin]. destruct hp; [|vm_compute; auto].
+      match goal with |- context [handle_plugin ?cc ?ss ?kk ?oo ?ii] =>
+        destruct (handle_plugin_cases cc ss kk oo ii) as [[o2 H]|[Hs H]]; rewrite H end.
+      -- destruct om, pr; vm_compute; auto.
+      -- unfold proceed. destruct om, pr, cp, ha; vm_compute; auto.
     + destruct HR as (-> & -> & -> & ->).
-      destruct o as [nv key|tk se kl| | |].
+      destruct o as [nv key|tk se kl|id| |].
       * vm_compute; auto.
       * destruct tk, se, kl, oc, cp, ha, pr, om; vm_compute; auto.
-      * destruct hp; vm_compute; auto.
+      * cbn [step has_plugin]. destruct hp; [|vm_compute; auto].
+        match goal with |- context [handle_plugin ?cc ?ss ?kk ?oo ?ii] =>
+          destruct (handle_plugin_cases cc ss kk oo ii) as [[o2 H]|[Hs H]]; [rewrite H|discriminate Hs] end.
+        destruct om, pr; vm_compute; auto.
       * vm_compute; auto.
       * vm_compute; auto.
   - cbn [Rel x open] in HR. destruct HR as (-> & ->).
-    destruct o as [nv key|tk se kl| | |]; try (vm_compute; auto).
+    destruct o as [nv key|tk se kl|id| |]; try (vm_compute; auto).
     destruct hp; vm_compute; auto.
   - cbn [Rel open] in HR. subst op0. destruct o; vm_compute; auto.
 Qed.
@@ -66,7 +110,7 @@ Proof.
 Qed.
 
 Theorem model_satisfies_predicate c ops : provider c = false ->
-  holds_from c (mkT XLogin true false 0) ops (map obs_of (outs c ops)) = true.
+  holds_from c (mkT XLogin true false 0 false) ops (map obs_of (outs c ops)) = true.
 Proof.
   intro Hpr. unfold outs, run. apply model_satisfies_predicate_from; [exact Hpr|].
   cbn. auto.
